@@ -1092,8 +1092,9 @@ class _MSWorld:
         return self.rng.integers(-2, 3, (r, c)) / 2.0 + 1j * self.rng.integers(-2, 3, (r, c)) / 2.0
 
     def level_of(self, grid):
+        # by geometry, not identity: an agnostic element (vector vortex) builds one instance per wavelength
         for i, g in enumerate(self.grids):
-            if g is grid:
+            if g is grid or (np.array_equal(g.dims, grid.dims) and np.array_equal(g.delta, grid.delta) and np.array_equal(g.zero, grid.zero)):
                 return i
         raise MachineryError('stand-in: unknown focal grid')
 
@@ -1105,6 +1106,7 @@ class _MSWorld:
 
     def patch(self):
         import hcipy.coronagraphy.multi_scale as ms
+        import hcipy.coronagraphy.vortex as vx
         hp = _hp()
         world = self
         real_mfg = ms.make_focal_grid
@@ -1113,9 +1115,13 @@ class _MSWorld:
             with warnings.catch_warnings():
                 warnings.simplefilter('ignore')
                 g = real_mfg(*a, **k)
+            for g0 in world.grids:
+                if np.array_equal(g0.dims, g.dims) and np.array_equal(g0.delta, g.delta) and np.array_equal(g0.zero, g.zero):
+                    return g0
             world.grids.append(g)
             return g
 
+        # every stand-in acts on the last axis, so scalar, vector and tensor fields go through alike
         class FFT:
             def __init__(self, grid):
                 self.src = world.level_of(grid)
@@ -1132,20 +1138,31 @@ class _MSWorld:
                 key = (self.j, self.i)
                 if key not in world.R:
                     world.R[key] = world.cm(world.grids[self.i].size, world.grids[self.j].size)
-                return hp.Field(world.R[key] @ np.asarray(field), self.grid)
+                return hp.Field(np.asarray(field) @ world.R[key].T, self.grid)
 
         class Filter:
             def __init__(self, input_grid, mask, q=1):
                 self.grid, self.mask = input_grid, mask
                 self.level = world.level_of(mask.grid)
 
-            def forward(self, field):
+            def _apply(self, field, adjoint):
                 F, B = world.ops(self.level)
-                return hp.Field(B @ (np.asarray(self.mask) * (F @ np.asarray(field))), self.grid)
+                foc = np.asarray(field) @ F.T
+                m = np.asarray(self.mask)
+                if m.ndim == 3:
+                    # a matrix transfer function: the real FourierFilter uses the conjugate transpose for the adjoint
+                    tf = m.conj().transpose(1, 0, 2) if adjoint else m
+                    g = self.mask.grid
+                    prod = np.asarray(hp.field_dot(hp.Field(tf, g), hp.Field(foc, g)))
+                else:
+                    prod = (m.conj() if adjoint else m) * foc
+                return hp.Field(prod @ B.T, self.grid)
+
+            def forward(self, field):
+                return self._apply(field, False)
 
             def backward(self, field):      # the adjoint filter: same transforms, conjugated transfer function
-                F, B = world.ops(self.level)
-                return hp.Field(B @ (np.asarray(self.mask).conj() * (F @ np.asarray(field))), self.grid)
+                return self._apply(field, True)
 
         class Prop:
             def __init__(self, input_grid, focal_grid):
@@ -1154,19 +1171,27 @@ class _MSWorld:
             def forward(self, wf):
                 world.wavelengths.append(float(wf.wavelength))
                 F, _ = world.ops(self.level)
-                return hp.Wavefront(hp.Field(F @ np.asarray(wf.electric_field), self.fg), wf.wavelength)
+                return hp.Wavefront(hp.Field(np.asarray(wf.electric_field) @ F.T, self.fg), wf.wavelength, wf.input_stokes_vector)
 
             def backward(self, wf):
                 world.wavelengths.append(float(wf.wavelength))
                 _, B = world.ops(self.level)
-                return hp.Wavefront(hp.Field(B @ np.asarray(wf.electric_field), self.pg), wf.wavelength)
+                return hp.Wavefront(hp.Field(np.asarray(wf.electric_field) @ B.T, self.pg), wf.wavelength, wf.input_stokes_vector)
 
             __call__ = forward
 
-        saved = {k: getattr(ms, k) for k in ('make_focal_grid', 'FastFourierTransform', 'MatrixFourierTransform', 'FourierFilter', 'FraunhoferPropagator')}
-        ms.make_focal_grid, ms.FastFourierTransform, ms.MatrixFourierTransform = make_focal_grid, FFT, MFT
-        ms.FourierFilter, ms.FraunhoferPropagator = Filter, Prop
-        return ms, saved
+        repl = {'make_focal_grid': make_focal_grid, 'FastFourierTransform': FFT, 'MatrixFourierTransform': MFT,
+                'FourierFilter': Filter, 'FraunhoferPropagator': Prop}
+        saved = [(mod, k, getattr(mod, k)) for mod in (ms, vx) for k in repl]
+        for mod in (ms, vx):
+            for k, v in repl.items():
+                setattr(mod, k, v)
+        return saved
+
+    @staticmethod
+    def unpatch(saved):
+        for mod, k, v in saved:
+            setattr(mod, k, v)
 
 
 MSALG_CONFIGS = [(2, 2, 2, 4), (2, 2, 2, 8), (2, 2, 3, 6), (2, 2, 3, 18), (3, 2, 2, 8), (3, 2, 2, 16), (3, 2, 3, 6), (2, 4, 2, 4),
@@ -1175,26 +1200,31 @@ MSALG_CONFIGS = [(2, 2, 2, 4), (2, 2, 2, 8), (2, 2, 3, 6), (2, 2, 3, 18), (3, 2,
 
 def gen_msalg_case(rng, k):
     N, W, s, q = MSALG_CONFIGS[k % len(MSALG_CONFIGS)] if k < len(MSALG_CONFIGS) else MSALG_CONFIGS[int(rng.integers(0, len(MSALG_CONFIGS)))]
-    return {'part': 'F', 'N': N, 'w': W, 's': float(s), 'q': float(q), 'kind': str(rng.choice(['random', 'random', 'vortex', 'fqpm'])),
+    return {'part': 'F', 'N': N, 'w': W, 's': float(s), 'q': float(q), 'kind': ('vvc' if k in (2, 9) else str(rng.choice(['random', 'random', 'vortex', 'fqpm', 'vvc']))),
             'charge': int(rng.choice([2, 4, 6])), 'stop': bool(rng.random() < 0.5), 'seed': int(rng.integers(0, 2 ** 31)),
             'wavelengths': [1.0, float(rng.choice([0.5, 2.0, 1.6e-6]))]}
 
 
 def run_msalg_case(case):
-    """The real constructor + forward on stand-ins; brute-force statement of the design; the model request."""
+    """The real constructor + forward/backward on stand-ins; brute-force statement of the design; the model requests
+    (one per Jones component for the vector vortex, whose make_instance/forward/backward are a second copy of the code)."""
     hp = _hp()
     N, W, s, q = case['N'], case['w'], case['s'], case['q']
     pg = hp.make_pupil_grid(N)
     n = pg.size
     world = _MSWorld(case['seed'], n)
     rng = np.random.default_rng(case['seed'] + 1)
-    raws = []
+    vvc = case['kind'] == 'vvc'
+    comps = [(a, c) for a in range(2) for c in range(2)] if vvc else [None]
 
-    def raw_mask(grid):
+    def raw_mask(grid, comp=None):
         if case['kind'] == 'vortex':
             v = np.exp(1j * case['charge'] * grid.as_('polar').theta) * (1 - (grid.as_('polar').r < 0.5e-9))
         elif case['kind'] == 'fqpm':
             v = (np.sign(grid.x) * np.sign(grid.y)).astype(complex)
+        elif vvc:
+            J = hp.LinearRetarder(np.pi, hp.Field(case['charge'] / 2 * grid.as_('polar').theta, grid)).jones_matrix
+            v = np.asarray(J)[comp[0], comp[1]] * (1 - (grid.as_('polar').r < 0.5e-9))
         else:
             v = rng.integers(-4, 5, grid.size) / 4.0 + 1j * rng.integers(-4, 5, grid.size) / 4.0
         return np.asarray(v, dtype=complex)
@@ -1208,13 +1238,15 @@ def run_msalg_case(case):
     stop = (rng.integers(-4, 5, n) / 4.0 + 1j * rng.integers(-4, 5, n) / 4.0) if case['stop'] else None
     E = rng.integers(-8, 9, n) / 4.0 + 1j * rng.integers(-8, 9, n) / 4.0
     bad = []
-    ms, saved = world.patch()
+    saved = world.patch()
     try:
         stop_f = None if stop is None else hp.Field(stop.copy(), pg)
         if case['kind'] == 'vortex':
             c = hp.VortexCoronagraph(pg, case['charge'], stop_f, q, s, W)
         elif case['kind'] == 'fqpm':
             c = hp.FQPMCoronagraph(pg, stop_f, q, s, W)
+        elif vvc:
+            c = hp.VectorVortexCoronagraph(case['charge'], stop_f, q=q, scaling_factor=s, window_size=W)
         else:
             c = hp.MultiScaleCoronagraph(pg, complex_mask, stop_f, q, s, W)
         outs = []
@@ -1226,7 +1258,10 @@ def run_msalg_case(case):
                 bad.append(('multiscale wavelength-bookkeeping', 'forward at wavelength %g returned wavelength %r and left the input at %r' % (wl, o.wavelength, wf.wavelength)))
             if not np.array_equal(np.asarray(wf.electric_field), E):
                 bad.append(('multiscale input-modified', 'forward changed its input'))
-        masks = [np.asarray(m).copy() for m in c.focal_masks]
+        if vvc:
+            masks_all = [np.asarray(m).copy() for m in c.get_instance_data(pg, None, case['wavelengths'][0]).jones_matrices]
+        else:
+            masks_all = [np.asarray(m).copy() for m in c.focal_masks]
         # backward through the same object
         Y = rng.integers(-8, 9, n) / 4.0 + 1j * rng.integers(-8, 9, n) / 4.0
         outsb = []
@@ -1239,27 +1274,24 @@ def run_msalg_case(case):
             if not np.array_equal(np.asarray(wf.electric_field), Y):
                 bad.append(('multiscale input-modified', 'backward changed its input'))
     except Exception as e:  # noqa
-        for k2, v in saved.items():
-            setattr(ms, k2, v)
         return None, [('multiscale stand-in raises', '%s on stand-ins raised %s: %s' % (case['kind'], type(e).__name__, str(e)[:100]))]
     finally:
-        for k2, v in saved.items():
-            setattr(ms, k2, v)
-    L = len(masks)
+        world.unpatch(saved)
+    L = len(masks_all)
     grids = world.grids[:L]
     if any(w != 1.0 for w in world.wavelengths):
         bad.append(('multiscale chromatic-propagator-call', 'a propagator was called at wavelength %r (must be 1 after rescaling)' % sorted(set(world.wavelengths))[:3]))
-    if np.abs(outs[0] - outs[1]).max() > 0:
-        bad.append(('multiscale chromatic', 'the output field depends on the wavelength (max difference %.3g)' % np.abs(outs[0] - outs[1]).max()))
-    if np.abs(outsb[0] - outsb[1]).max() > 0:
-        bad.append(('multiscale chromatic', 'the output field of backward depends on the wavelength (max difference %.3g)' % np.abs(outsb[0] - outsb[1]).max()))
-    # brute-force statement of the design on the same operators
+    if outs[0].shape != outs[1].shape or np.abs(outs[0] - outs[1]).max() > 0:
+        bad.append(('multiscale chromatic', 'the output field depends on the wavelength'))
+    if outsb[0].shape != outsb[1].shape or np.abs(outsb[0] - outsb[1]).max() > 0:
+        bad.append(('multiscale chromatic', 'the output field of backward depends on the wavelength'))
+    want_shape = (2, 2, n) if vvc else (n,)
+    if outs[0].shape != want_shape or outsb[0].shape != want_shape:
+        return None, bad + [('multiscale stand-in raises', 'output of shape %s / %s' % (outs[0].shape, outsb[0].shape))]
     ds = [g.size for g in grids]
-    wins, raws, Ms = [], [], []
-    for i, g in enumerate(grids):
-        raws.append(raw_mask(g) if case['kind'] != 'random' else None)
-    if case['kind'] == 'random':
-        raws = made[:L]
+    D = sum(ds)
+    off = np.concatenate([[0], np.cumsum(ds)])
+    wins = []
     for i, g in enumerate(grids):
         dd = int(g.dims[0])
         if i != L - 1:
@@ -1267,31 +1299,11 @@ def run_msalg_case(case):
             wins.append(expected_window(dd, dd, W, b, dd - W - b).ravel())
         else:
             wins.append(np.zeros(g.size))
-        M = raws[i] * (1 - wins[i]) if i != L - 1 else raws[i].copy()
+    for i in range(L):
         for j in range(i):
             if (j, i) not in world.R:
                 bad.append(('multiscale mask-recursion', 'level %d never resamples the mask of level %d (nothing subtracted for it)' % (i, j)))
                 world.R[(j, i)] = np.zeros((ds[i], ds[j]), dtype=complex)
-            M = M - world.R[(j, i)] @ Ms[j]
-        Ms.append(M)
-    want = sum(world.ops(i)[1] @ (Ms[i] * (world.ops(i)[0] @ E)) for i in range(L))
-    if stop is not None:
-        want = want * stop
-    scale = max(1.0, float(np.abs(want).max()))
-    for i in range(L):
-        if masks[i].shape != Ms[i].shape or np.abs(masks[i] - Ms[i]).max() > TOL * max(1.0, np.abs(Ms[i]).max()):
-            bad.append(('multiscale mask-recursion', 'level %d: stored mask differs from raw*(1-window) - sum of resampled earlier masks' % i))
-            break
-    if np.abs(outs[0] - want).max() > TOL * scale:
-        bad.append(('multiscale forward-sum', 'forward differs from stop * sum_i B_i(M_i * F_i E) by %.3g' % np.abs(outs[0] - want).max()))
-    ys = Y if stop is None else Y * stop.conj()
-    wantb = sum(world.ops(i)[1] @ (Ms[i].conj() * (world.ops(i)[0] @ ys)) for i in range(L))
-    scale = max(scale, float(np.abs(wantb).max()))
-    if np.abs(outsb[0] - wantb).max() > TOL * scale:
-        bad.append(('multiscale backward-sum', 'backward differs from sum_i B_i(conj(M_i) * F_i (conj(stop) y)) by %.3g' % np.abs(outsb[0] - wantb).max()))
-    # the model request: all levels embedded as blocks of one index set
-    D = sum(ds)
-    off = np.concatenate([[0], np.cumsum(ds)])
 
     def emb_vec(v, i):
         o = np.zeros(D, dtype=complex)
@@ -1304,21 +1316,51 @@ def run_msalg_case(case):
 
     def cmx(M):
         return rat_lists(M.real) + ' ' + rat_lists(M.imag)
-    toks = ['%d %d' % (n, D), '- -' if stop is None else cl(stop), '@FIELD@', str(L)]
-    for i in range(L):
-        Fi, Bi = world.ops(i)
-        Fe = np.zeros((D, n), dtype=complex)
-        Fe[off[i]:off[i + 1]] = Fi
-        Be = np.zeros((n, D), dtype=complex)
-        Be[:, off[i]:off[i + 1]] = Bi
-        toks += [cl(emb_vec(raws[i], i)), cl(emb_vec(wins[i], i)), cmx(Fe), cmx(Be), str(i)]
-        for j in range(i):
-            Re = np.zeros((D, D), dtype=complex)
-            Re[off[i]:off[i + 1], off[j]:off[j + 1]] = world.R[(j, i)]
-            toks.append(cmx(Re))
-    body = ' '.join(toks)
-    return {'line': 'C09 msalg ' + body.replace('@FIELD@', cl(E)), 'line_b': 'C09 msalgb ' + body.replace('@FIELD@', cl(Y)),
-            'out': outs[0], 'out_b': outsb[0], 'masks': masks, 'off': off, 'scale': scale, 'L': L, 'D': D}, bad
+    ys = Y if stop is None else Y * stop.conj()
+    parts = []
+    for comp in comps:
+        tag = '' if comp is None else ' (Jones component %d,%d)' % comp
+        pick = (lambda arr: arr) if comp is None else (lambda arr: arr[comp[0], comp[1]])
+        masks = [pick(m) for m in masks_all]
+        # brute-force statement of the design on the same operators
+        raws = made[:L] if case['kind'] == 'random' else [raw_mask(g, comp) for g in grids]
+        Ms = []
+        for i in range(L):
+            M = raws[i] * (1 - wins[i]) if i != L - 1 else raws[i].copy()
+            for j in range(i):
+                M = M - world.R[(j, i)] @ Ms[j]
+            Ms.append(M)
+        want = sum(world.ops(i)[1] @ (Ms[i] * (world.ops(i)[0] @ E)) for i in range(L))
+        if stop is not None:
+            want = want * stop
+        scale = max(1.0, float(np.abs(want).max()))
+        for i in range(L):
+            if masks[i].shape != Ms[i].shape or np.abs(masks[i] - Ms[i]).max() > TOL * max(1.0, np.abs(Ms[i]).max()):
+                bad.append(('multiscale mask-recursion', 'level %d: stored mask differs from raw*(1-window) - sum of resampled earlier masks%s' % (i, tag)))
+                break
+        if np.abs(pick(outs[0]) - want).max() > TOL * scale:
+            bad.append(('multiscale forward-sum', 'forward differs from stop * sum_i B_i(M_i * F_i E) by %.3g%s' % (np.abs(pick(outs[0]) - want).max(), tag)))
+        wantb = sum(world.ops(i)[1] @ (Ms[i].conj() * (world.ops(i)[0] @ ys)) for i in range(L))
+        scale = max(scale, float(np.abs(wantb).max()))
+        if np.abs(pick(outsb[0]) - wantb).max() > TOL * scale:
+            bad.append(('multiscale backward-sum', 'backward differs from sum_i B_i(conj(M_i) * F_i (conj(stop) y)) by %.3g%s' % (np.abs(pick(outsb[0]) - wantb).max(), tag)))
+        # the model request: all levels embedded as blocks of one index set
+        toks = ['%d %d' % (n, D), '- -' if stop is None else cl(stop), '@FIELD@', str(L)]
+        for i in range(L):
+            Fi, Bi = world.ops(i)
+            Fe = np.zeros((D, n), dtype=complex)
+            Fe[off[i]:off[i + 1]] = Fi
+            Be = np.zeros((n, D), dtype=complex)
+            Be[:, off[i]:off[i + 1]] = Bi
+            toks += [cl(emb_vec(raws[i], i)), cl(emb_vec(wins[i], i)), cmx(Fe), cmx(Be), str(i)]
+            for j in range(i):
+                Re = np.zeros((D, D), dtype=complex)
+                Re[off[i]:off[i + 1], off[j]:off[j + 1]] = world.R[(j, i)]
+                toks.append(cmx(Re))
+        body = ' '.join(toks)
+        parts.append({'line': 'C09 msalg ' + body.replace('@FIELD@', cl(E)), 'line_b': 'C09 msalgb ' + body.replace('@FIELD@', cl(Y)),
+                      'out': pick(outs[0]), 'out_b': pick(outsb[0]), 'masks': masks, 'off': off, 'scale': scale, 'L': L, 'D': D, 'comp': comp})
+    return {'parts': parts, 'L': L}, bad
 
 
 def gen_mstele(rng):
@@ -1407,8 +1449,9 @@ def part_f(ctx):
         if obs is not None:
             ctx.count('F:levels:%d' % obs['L'])
             ctx.case({k: case[k] for k in ('N', 'w', 's', 'q', 'kind', 'stop')}, ('F', case['N'], case['w'], case['s'], case['q'], case['kind'], case['stop']) if obs['L'] > 1 else None)
-            plan.append((case, obs, len(lines)))
-            lines.append(obs['line'])
+            for part in obs['parts']:
+                plan.append((case, part, len(lines)))
+                lines.append(part['line'])
     tele = [gen_mstele(ctx.rng) for _ in range(ctx.scale(60, 400))]
     teleb = [gen_msteleb(ctx.rng) for _ in range(ctx.scale(40, 300))]
     out = ctx.model(lines + [t[0] for t in tele] + [t[0] for t in teleb] + [obs['line_b'] for _, obs, _ in plan])
@@ -1418,6 +1461,7 @@ def part_f(ctx):
     for case, obs, k in plan:
         toks = out[k].split()
         short = {k2: case[k2] for k2 in ('N', 'w', 's', 'q', 'kind', 'stop', 'seed')}
+        short['jones_component'] = obs['comp']
         if toks[0] != 'ok' or len(toks) != 3 + 2 * obs['L']:
             raise MachineryError('model refused msalg: %s' % out[k][:80])
 
@@ -1484,9 +1528,20 @@ def run(ctx):
                 '(shape kind, dims, order, aperture kind). C: Lyot identities with real propagators, forward algebra against the model with '
                 'exact linear propagators and arbitrary masks. D: constructed multi-scale coronagraphs on a box of (N, window, s, q) — levels, '
                 'per-level dims/delta/zero, propagator kinds, recovered windows — against the model; non-trivial = at least two levels. '
-                'E: measured on-axis (<1 %) and 10 lambda/D (>50 %) transmission.')
+                'E: measured on-axis (<1 %) and 10 lambda/D (>50 %) transmission. '
+                'B also: the real transformation / transformation_inverse / coeffs are sent to the model, which evaluates the hypotheses of the '
+                'perfectMat theorems on them and the literal operator E - T(c*(T+ E)) on every field (complex apertures in real 2n x 2k form, '
+                'grids with non-constant weights, user-supplied coeffs: constant, ones on the modes of a lower order, random), and the matrix '
+                'get_transformation_matrix_forward() entry by entry. C also: backward of both Lyot coronagraphs on real propagators and on stand-ins, '
+                '<y, forward x> = <backward y, x> on stand-in pairs B = F^H. F: the real MultiScale/Vortex/FQPM constructors and forward/backward '
+                'running on exact linear stand-ins for every Fourier object (13 small configurations, 1-4 levels): masks level by level, '
+                'outputs, wavelength bookkeeping; telescoping identities on generated nested supports.')
     ctx.assumptions += [
-        'LAPACK QR returns orthonormal columns spanning the modes; the truncated-SVD pseudo-inverse of such a matrix is its conjugate transpose',
+        'LAPACK QR + truncated-SVD pseudo-inverse: T+ T = I, T+ = T^H and span(modes) inside range(T) hold up to 1e-9 for the real '
+        'transformation matrices (evaluated exactly by the model on every run; a larger defect is reported as a disagreement)',
+        'multi-scale stand-ins: the algebra of constructor/forward/backward is checked for arbitrary linear operators in place of FFT/MFT/'
+        'Fraunhofer objects; that the real Fourier objects realise the exact-window design of the telescoping theorem is not proved '
+        '(level geometry: part D; leakage: part E)',
         'grid weights are constant (regular grids): power is proportional to the unweighted sum of |E|^2',
         'FQPM off-axis throughput is measured at least 20 degrees away from the quadrant transitions (an ideal FQPM attenuates sources on them)',
         'multi-scale model domain: q > 2/scaling_factor, scaling_factor > 1; when q/2 is an exact power of the scaling factor the float '
